@@ -79,7 +79,7 @@ EncodeThenPollOK(msg, ord) ==
         p == PollPoll(r.st, 0, now + TO, TO)
         total == Flat(r.outs) \o p.out
     IN \/ total = <<msg>>
-       \/ Len(total) = 2 /\ total[2] = msg /\ IsEntry7(total[1]) /\ g.owe
+       \/ Len(total) = 2 /\ total[2] = msg /\ IsEntry7(total[1]) /\ total[1][3] = g.c6 /\ ~g.rep
 I_C12enc == TO # Inf => \A msg \in Msgs7 \cup Msgs14 : \A ord \in {"msb", "lsb"} : EncodeThenPollOK(msg, ord)
 
 TypeOK == /\ st.ph \in {"WNC", "WFV", "VP", "FVC"}
@@ -87,8 +87,8 @@ TypeOK == /\ st.ph \in {"WNC", "WFV", "VP", "FVC"}
 
 (********************************* views ***********************************)
 AgeSt(s) == IF s.ph = "VP" THEN [s EXCEPT !.at = Min(now - s.at, CAP)] ELSE s
-AgeG(x) == [x EXCEPT !.c6t  = IF x.owe THEN Min(now - x.c6t, CAP) ELSE 0,
-                     !.c38t = IF x.last = "cc38" /\ ~x.late38 THEN Min(now - x.c38t, CAP) ELSE 0]
+AgeG(x) == [x EXCEPT !.c6t  = IF x.last = "cc6" THEN Min(now - x.c6t, CAP) ELSE 0,
+                     !.c38t = IF x.last = "cc38" THEN Min(now - x.c38t, CAP) ELSE 0]
 View == <<AgeSt(st), AgeG(g)>>
 EdgeView == AgeSt(st)
 AgeStP(s) == IF s.ph = "VP" THEN [s EXCEPT !.at = Min(now' - s.at, CAP)] ELSE s
